@@ -89,6 +89,33 @@ theorem resize_ok (es : Nat) (m : Matrix α) (r c : Nat) (dflt : α)
   obtain ⟨hc, hr, hcc, ho⟩ := C08.resize_ok_coh es m _ r c dflt hd
   exact ⟨_, hd, ho, hr, hcc, resizeData_toList _ _ _, hc⟩
 
+/-- resizing to the shape the matrix already has changes nothing at all (no element is dropped,
+no default is appended, order and shape stay) -/
+theorem resize_same (es : Nat) (m : Matrix α) (h : m.Coh) (dflt : α)
+    (h1 : m.data.size ≤ usizeMax) (h2 : es * m.data.size ≤ isizeMax) :
+    m.resize es ⟨m.nrows, m.ncols⟩ dflt = .ok (.ok (), m) := by
+  have hsz : m.nrows * m.ncols = m.data.size := by
+    have := h.size_eq
+    obtain ⟨o, sh, d⟩ := m
+    cases o <;> simp only [Matrix.nrows, Matrix.ncols, AxisShape.nrows, AxisShape.ncols] at this ⊢
+    · exact this
+    · rw [Nat.mul_comm]; exact this
+  obtain ⟨m', hm', ho, hr, hc, hd, _⟩ :=
+    resize_ok es m m.nrows m.ncols dflt (by rw [hsz]; exact h1) (by rw [hsz]; exact h2)
+  rw [hm']
+  have hdata : m'.data = m.data := by
+    apply Array.ext'
+    rw [hd, hsz]; simp
+    exact List.take_of_length_le (by simp)
+  obtain ⟨o, sh, d⟩ := m
+  obtain ⟨o', sh', d'⟩ := m'
+  simp only at ho hdata
+  subst ho hdata
+  obtain ⟨a, b⟩ := sh
+  obtain ⟨a', b'⟩ := sh'
+  cases o' <;> simp only [Matrix.nrows, Matrix.ncols, AxisShape.nrows, AxisShape.ncols] at hr hc <;>
+    subst hr hc <;> rfl
+
 /-! ### a failed fallible in-place operation leaves the matrix exactly as it was -/
 
 theorem reshape_failed_unchanged (m m' : Matrix α) (s : Shape) (e : Error)
@@ -237,5 +264,10 @@ example : (ex23.resize 8 ⟨2, 2⟩ 0).map (fun p => p.2.data.toList) = .ok [1, 
 example : (ex23.resize 8 ⟨2, 4⟩ 0).map (fun p => p.2.data.toList) = .ok [1, 4, 2, 5, 3, 6, 0, 0] := by rfl
 example : (ex23.resize 8 ⟨2 ^ 40, 2 ^ 40⟩ 0).map (fun p => (p.1, p.2 == ex23)) = .ok (.error .sizeOverflow, true) := by
   rw [C08.resize_decision]; simp [usizeMax]; rfl
+example : ex23.Coh ∧ ex23.data.size ≤ usizeMax ∧ 8 * ex23.data.size ≤ isizeMax ∧ 6 * 1 = ex23.data.size :=
+  ⟨⟨rfl⟩, by simp [ex23, usizeMax], by simp [ex23, isizeMax], rfl⟩   -- premises of the round-trip laws
+example : (ex23.resize 8 ⟨2, 3⟩ 0).map (fun p => (p.1, p.2 == ex23)) = .ok (.ok (), true) := by rfl
+example : ((ex23.reshape ⟨6, 1⟩).bind fun p => p.2.reshape ⟨2, 3⟩).map (fun p => (p.1, p.2 == ex23)) =
+    .ok (.ok (), true) := by rfl
 
 end Matreex.C09
